@@ -8,7 +8,8 @@ ID = 'C09'
 RULE = ('cases: all-atom outputs of the resolver for (i) C01 strings (charged atoms, aromatic cuts), (ii) '
         'multi-level strings, (iii) ambiguous fragment sets with surplus descriptors (polymers via multipliers, '
         'rings of identical units, branched grafts, shared atoms), (iv) fragments with explicitly written [H] '
-        'atoms and annotated hydrogens; sampler outputs are covered by C16. Oracle (output only, independent '
+        'atoms and annotated hydrogens, (v) strings with free polyatomic ions ([NH4+], [OH-], [OH3+] ...) as own '
+        'fragments on order-0 edges; sampler outputs are covered by C16. Oracle (output only, independent '
         'valence table C4 N3,5 O2 S2,4,6 P3,5 halogens 1, iso-electronic shift for charges, aromatic atom = sigma '
         'bonds + 1): heavy bond sum s; if some usual valence v >= s exists the atom carries exactly min(v)-s '
         'hydrogens; every H has exactly one neighbour, bond order 1, and copies that atom\'s fragid, fragname and '
@@ -86,6 +87,26 @@ def gen_weighted(R, tier):
     return dict(input=s, last_all_atom=True, legacy=True, kind='weighted', dedicated=True, nlevels=1, features=sorted(feats))
 
 
+IONS = ['[NH4+]', '[OH-]', '[OH3+]', '[SH-]', '[Cl-]', '[NH4+].[Cl-]', '[OH3+].[OH-]', 'O.[NH4+]']
+
+
+def gen_ions(R, tier):
+    """a C01 string plus 1-2 free (polyatomic) ions: own fragments attached to the base graph by order-0
+    edges only, some of them two species inside one fragment (dot-separated)"""
+    case = resgen.gen_cut_string(R, tier)
+    if case is None:
+        return None
+    s = case['input']
+    head, tail = s.split('}.{', 1)
+    extra = []
+    for k in range(R.choice([1, 1, 2])):
+        head += '.[#I%d]' % k
+        extra.append('#I%d=%s' % (k, R.choice(IONS)))
+    tail = tail[:-1] + ',' + ','.join(extra) + '}' if R.chance(0.5) else ','.join(extra) + ',' + tail
+    return dict(input=head + '}.{' + tail, last_all_atom=True, legacy=True, kind='ions', dedicated=False, nlevels=1,
+                features=sorted(set(case['features']) | {'free_polyatomic_ion'}))
+
+
 def gen_sampler(R, tier):
     from .. import sampler
     cfg = sampler.gen_cfg(R, tier, all_atom=True)
@@ -114,6 +135,8 @@ def gen_inner(R, tier):
         return gen_weighted(R, tier)
     if r < 0.42:
         return gen_sampler(R, tier)
+    if r < 0.47:
+        return gen_ions(R, tier)
     while True:
         case = resgen.gen_resolvable(R, tier, kinds=('fragset', 'fragset', 'cut', 'cut', 'levels'))
         if case is None or case['last_all_atom']:
@@ -126,7 +149,7 @@ def nontrivial(case):
     f = set(case['features'])
     if case['kind'] == 'sampler':
         return case.get('_steps', 0) >= 1
-    return case['kind'] in ('fragset', 'explicit_h', 'weighted', 'h_caps') or bool(f & {'charged_at_cut', 'aromatic_cut'})
+    return case['kind'] in ('fragset', 'explicit_h', 'weighted', 'h_caps', 'ions') or bool(f & {'charged_at_cut', 'aromatic_cut'})
 
 
 def key(case):
